@@ -159,8 +159,7 @@ def model_flat_line(x, step, suspect_thr, fail_thr, tol):
     out = []
 
     def flagged(i, thr):
-        k = int(thr) // step if step > 0 else 0
-        k = int(math.floor(int(thr) / step))
+        k = math.floor(Fraction(thr) / Fraction(step))  # exact: thresholds and steps are dyadic
         if i < k:
             return False
         win = [v for v in x[i - k:i + 1] if not miss(v)]
